@@ -30,6 +30,7 @@ import os
 import random
 import signal
 import tempfile
+import warnings
 
 from .common import import_ckl, MachineryError, REPO
 from .tla import run_tlc
@@ -69,11 +70,13 @@ def timed(fn, seconds):
 
 # ------------------------------------------------------------ model states
 def norm_state(js):
-    """TLC's JSON of a state -> hashable normal form
+    """TLC's JSON of a state projection (Heap.tla Proj: cell = int, reference
+    r as -r; container = [kind, keys, cells]) -> hashable normal form
     (heap: tuple of (kind, keys, items((t, v)...)), names: tuple in NAMES order)."""
-    heap = tuple((c["k"], tuple(c["keys"]), tuple((x["t"], x["v"]) for x in c["items"]))
-                 for c in js["heap"])
-    names = tuple((js["names"][n]["t"], js["names"][n]["v"]) for n in NAMES)
+    def cell(x):
+        return ("r", -x) if x < 0 else ("i", x)
+    heap = tuple((c[0], tuple(c[1]), tuple(cell(x) for x in c[2])) for c in js["h"])
+    names = tuple(cell(x) for x in js["n"])
     return (heap, names)
 
 
@@ -285,6 +288,12 @@ def build_source(st):
     return "def build() do " + "; ".join(parts + ["NULL"]) + " end; build()"
 
 
+def graph_label(st):
+    """Readable identification of an initial alias graph (used in violation keys)."""
+    src = build_source(st)
+    return "{" + src[len("def build() do "):-len("; NULL end; build()")].replace("def ", "") + "}"
+
+
 def kind_of(st, n):
     heap, names = st
     c = names[NAMES.index(n)] if n in NAMES else ("i", 0)
@@ -321,7 +330,7 @@ def _identity(it):
             for i in range(4)]
 
 
-def run_case(case, limit=2.0):
+def run_case(case, limit=1.0):
     """case: {"build": src, "init_want": [...], "steps": [{"src", "want", "op", "part"}]}
     -> {"viol": (key, what) | None, "drift": [(kind, sample)], "evals": n}"""
     it = _IT
@@ -409,7 +418,7 @@ def make_case(g, parent, pre, ok):
         steps.append(parent[st])
         st = parent[st][0]
     steps.reverse()
-    case = {"label": f"G{g.inits.index(st) + 1}", "build": build_source(st),
+    case = {"label": graph_label(st), "build": build_source(st),
             "init_want": render_state(st), "steps": []}
     for (p, k) in steps:
         op, post = g.edges[(p, k)]
@@ -483,6 +492,19 @@ MODULE_FILES_DIR = os.path.join(REPO, "src", "ckl", "modules")
 SKIP_FUNCS = {"exit", "run", "sleep", "execute"}      # would leave / block the process
 
 
+# operators and syntax forms that take values ("Operators ... never modify the
+# values passed to them"); @1 @2 @3 stand for pool variables
+OPERATOR_FORMS = [
+    "@1 + @2", "@1 - @2", "@1 * @2", "@1 / @2", "@1 % @2", "@1 == @2", "@1 != @2", "@1 <> @2",
+    "@1 < @2", "@1 <= @2", "@1 > @2", "@1 >= @2", "@1 in @2", "@1 not in @2", "@1 and @2",
+    "@1 or @2", "not @1", "-@1", "@1[@2]", "@1[@2 to *]", "@1[@2 to @3]", "@1 !> identity()",
+    "[e for e in @1]", "<<e for e in @1>>", "[[x, y] for x in @1 for y in @2]",
+    "(fn(q) [...q])(@1)", "(fn(q) [0, ...q, 0])(@1)", "for e in @1 do e end",
+    "if @1 then 1 else 2", "@1 == @1", "@1 + @1", "@1 - @1", "[@1, @2]", "<<<@1 => @2>>>",
+    "string(@1) + @2", "(fn(x, y) x)(@1, @2)", "(fn(args...) args)(@1, @2)",
+]
+
+
 def pool_defs():
     return "; ".join(f"def p{i + 1} = {s}" for i, s in enumerate(POOL_SRC)) + "; NULL"
 
@@ -538,6 +560,9 @@ def enumerate_functions():
         f = base.get(sym, None)
         if isinstance(f, V.ValueFunc):
             take("legacy", sym, sym, f)
+    for form in OPERATOR_FORMS:
+        ar = 3 if "@3" in form else 2 if "@2" in form else 1
+        found.append(("base", form, "operator " + form, ar))
     return found
 
 
@@ -556,6 +581,7 @@ def arg_tuples(arity, maxar, rng, cap):
 def _sweep_chunk(job):
     """job: [(label, expr, name, tuples)] -> (events with rendered strings, stats)"""
     signal.signal(signal.SIGALRM, _alarm)
+    warnings.simplefilter("ignore")     # host `re` FutureWarnings from pattern(...) calls
     events = []
     stats = {"calls": 0, "val": 0, "err": 0, "host": 0, "timeout": 0, "syntax": 0}
     aliasres = {}
@@ -590,7 +616,15 @@ def _sweep_chunk(job):
 
         cur = fresh()
         for tup in tuples:
-            src = expr + "(" + ", ".join(f"p{i}" for i in tup) + ")"
+            if "@" in expr:                     # an operator form: all places filled
+                ar = 3 if "@3" in expr else 2 if "@2" in expr else 1
+                if len(tup) != ar:
+                    continue
+                src = expr
+                for k, i in enumerate(tup):
+                    src = src.replace(f"@{k + 1}", f"p{i}")
+            else:
+                src = expr + "(" + ", ".join(f"p{i}" for i in tup) + ")"
             it.setStandardInput(io.StringIO(""))
             o = timed(lambda: it.interpret(src, "c16"), 3.0)
             stats["calls"] += 1
@@ -599,7 +633,7 @@ def _sweep_chunk(job):
                 aliasres.setdefault("timeout:" + name, src)
             post = snapshot()
             events.append({"op": "call", "fn": name, "args": list(tup), "post": post,
-                           "src": f"{label}: {src}", "outcome": o[0]})
+                           "src": f"{label}: {src}", "expr": expr, "outcome": o[0]})
             if o[0] == "val" and isinstance(o[1], cont):
                 for i in set(tup):
                     if env.get(f"p{i}", None) is o[1]:
@@ -613,7 +647,7 @@ def sweep(run, rng, maxar, cap, pool):
     funcs = enumerate_functions()
     jobs = []
     for label, expr, name, arity in funcs:
-        jobs.append((label, expr, name, arg_tuples(arity, maxar, rng, cap)))
+        jobs.append((label, expr, name, arg_tuples(arity, 3 if "@" in expr else maxar, rng, cap)))
     # one function per job: deterministic event order = function order
     results = pool.map(_sweep_chunk, [[j] for j in jobs], chunksize=4)
     intern = {}
@@ -686,7 +720,7 @@ def validate_sweep(run, events, meta, table, label="Heap_Trace validation of the
         run.violation("B:" + src,
                       f"{b['why']}: `{src}` (outcome {meta[k]['outcome']}) changed " + "; ".join(changed)[:400],
                       {"kind": "call", "label": src.split(": ")[0], "call": src.split(": ", 1)[1],
-                       "fn": events[k]["fn"], "args": events[k]["args"]})
+                       "expr": meta[k]["expr"], "fn": events[k]["fn"], "args": events[k]["args"]})
     return nbad
 
 
@@ -695,25 +729,49 @@ def run(run):
     quick = run.tier == "quick"
     rng = random.Random(run.seed)
     ctx = multiprocessing.get_context("fork")
-    g = Graph()
-    cfg = "Heap_quick" if quick else "Heap_thorough"
-    res = run_tlc("Heap", cfg, coverage=True, timeout=3000)
-    run.add_tlc(res, f"Heap alias-graph machine, breadth-first ({cfg})")
-    g.add(res)
-    nbfs = len(g.edges)
-    walks = 300 if quick else 4000
-    sim = run_tlc("Heap", "Heap_sim", workers=1, simulate=f"num={walks}", depth=6,
-                  seed=run.seed % 100000, timeout=3000, coverage=False)
-    run.add_tlc(sim, f"Heap random walks of 6 operations ({walks})")
-    g.add(sim)
-    if not g.inits or not g.edges:
-        raise MachineryError("TLC exported no transitions")
+    astats = {"cases": 0, "evals": 0, "longest": 0, "levels": [], "unreached": 0, "bfs": 0, "all": 0}
+    asamples = []
+    never = None
+
+    def explore(pool, label, results):
+        g = Graph()
+        for r in results:
+            g.add(r)
+        if not g.inits or not g.edges:
+            raise MachineryError("TLC exported no transitions")
+        st, sm = replay_graph(run, g, pool)
+        astats["cases"] += st["cases"]
+        astats["evals"] += st["evals"]
+        astats["longest"] = max(astats["longest"], st["longest"])
+        astats["unreached"] += st["unreached_transitions"]
+        astats["levels"].append({label: st["levels"]})
+        astats["all"] += len(g.edges)
+        asamples.extend(sm[1:3])
+
     with ctx.Pool(NPROC, initializer=_worker_init) as pool:
-        astats, asamples = replay_graph(run, g, pool)
-    for c in asamples[1:4]:
+        # depth 2 from all initial graphs + random walks (both tiers)
+        res = run_tlc("Heap", "Heap_quick", coverage=True, timeout=3000, env={"INIT_SEL": "0"})
+        run.add_tlc(res, "Heap alias-graph machine, breadth-first, sequences <= 2 (Heap_quick)")
+        never = sorted(a for a, n in res.coverage.items() if n == 0)
+        astats["bfs"] += len(res.records("EDGE"))
+        ninit = len({json.dumps(x, sort_keys=True) for x in res.records("INIT")})
+        walks, wdepth = (300, 6) if quick else (4000, 8)
+        sim = run_tlc("Heap", "Heap_sim", workers=1, simulate=f"num={walks}", depth=wdepth,
+                      seed=run.seed % 100000, timeout=3000, coverage=False, env={"INIT_SEL": "0"})
+        run.add_tlc(sim, f"Heap random walks of {wdepth} operations ({walks})")
+        explore(pool, "depth2+walks", [res, sim])
+        del res, sim
+        if not quick:
+            # depth 3, one initial graph per TLC run
+            for k in range(1, ninit + 1):
+                r3 = run_tlc("Heap", "Heap_thorough", coverage=False, timeout=3000, env={"INIT_SEL": str(k)})
+                run.add_tlc(r3, f"Heap breadth-first, sequences <= 3, initial graph {k} (Heap_thorough)")
+                astats["bfs"] += len(r3.records("EDGE"))
+                explore(pool, f"depth3:G{k}", [r3])
+                del r3
+    for c in asamples[:3]:
         run.sample({"A-program": {"label": c["label"], "build": c["build"],
                                   "steps": [(s["src"], s["want"]) for s in c["steps"]]}})
-    never = sorted(a for a, n in res.coverage.items() if n == 0)
     if never:
         run.drift("model-action-never-taken", never)
 
@@ -724,7 +782,7 @@ def run(run):
         funcs, events, meta, table, stats = sweep(run, rng, maxar, cap, pool)
     nbad = validate_sweep(run, events, meta, table)
     ncalls = sum(1 for e in events if e["op"] == "call")
-    k = next(i for i, e in enumerate(events) if e["op"] == "call" and e["fn"] == "append" and len(e["args"]) == 2)
+    k = next(i for i, e in enumerate(events) if e["op"] == "call" and e["fn"] == "append" and e["args"] == [2, 11])
     run.sample({"B-event": events[k], "B-source": meta[k]["src"],
                 "rendered_after": [table[i - 1] for i in events[k]["post"]]})
     run.sample({"B-functions": len(funcs), "by_environment": _count_by(funcs), "outcomes": stats})
@@ -737,10 +795,11 @@ def run(run):
                        "every operation); binding B: one event per call of a distinct function definition on "
                        "a distinct argument tuple, validated by Heap_Trace; evaluations counts interpreter calls")
     run.cov["exhaustive"] = True
-    run.cov["bounds"] = {"cfg": cfg, "bfs_transitions": nbfs, "transitions_with_random_walks": len(g.edges),
-                         "longest_program": astats["longest"], "random_walks": walks,
+    run.cov["bounds"] = {"A_bfs_transitions_exported": astats["bfs"],
+                         "A_distinct_transitions_replayed": astats["cases"],
+                         "A_longest_program": astats["longest"], "A_random_walks": walks,
                          "A_levels": astats["levels"],
-                         "A_transitions_not_replayed_behind_a_violation": astats["unreached_transitions"],
+                         "A_transitions_not_replayed_behind_a_violation": astats["unreached"],
                          "B_functions": len(funcs), "B_calls": ncalls, "B_max_arity": maxar,
                          "B_tuple_cap_per_arity": cap, "B_rejected_events": nbad,
                          "B_distinct_renderings": len(table), "processes": NPROC}
@@ -776,8 +835,7 @@ def replay(run, case):
     elif case["kind"] == "call":
         signal.signal(signal.SIGALRM, _alarm)
         tup = tuple(case["args"])
-        expr = case["call"].split("(")[0]
-        events, _st, _al = _sweep_chunk([(case["label"], expr, case["fn"], [tup])])
+        events, _st, _al = _sweep_chunk([(case["label"], case["expr"], case["fn"], [tup])])
         table, intern = [], {}
         evs = []
         for e in events:
